@@ -10,6 +10,12 @@
 (* before the genuine reply or the deadline, and once more (post) after the *)
 (* call has returned.  Foreign requests carry a cookie under the kb-th      *)
 (* newest key the provider holds (kb = 0: under the key handed out now).    *)
+(* Each behaviour is run with one client (tr: the IP client or the SCION    *)
+(* client, chosen with the initial state).  For the SCION client the        *)
+(* network may also hand the waiting client scmp SCMP messages of type styp *)
+(* before the genuine reply or the deadline - before (sfirst) or after the  *)
+(* earlier replies of the same exchange; at most two extra datagrams per    *)
+(* exchange (the second one ends the call).                                 *)
 (* `stat` counts, on the specification's side, how often a behaviour        *)
 (* exercises these dimensions (vacuity guards of the checks).               *)
 (*   Exhaustive = FALSE (tlc -simulate): one random decision per step,     *)
@@ -23,13 +29,13 @@
 (*   Exhaustive = TRUE (breadth-first): all schedules of MaxEx exchanges.  *)
 (***************************************************************************)
 EXTENDS NtsCookies, Json, FiniteSets
-CONSTANTS Exhaustive, Biases, TickPct, ProbePct, StalePct, ExInj
+CONSTANTS Exhaustive, Biases, TickPct, ProbePct, StalePct, ExInj, ScmpPct, ExScmp
 VARIABLES hist, bias, plan, stat, kex
 gvars == <<vars, hist, bias, plan, stat, kex>>
 
 Pick(S) == RandomElement(S)
 Drops == {"none", "req", "resp"}
-NoPlan == [drop |-> "none", pre |-> 0, post |-> 0, src |-> 0]
+NoPlan == [drop |-> "none", pre |-> 0, post |-> 0, src |-> 0, scmp |-> 0, sfirst |-> FALSE, styp |-> "none"]
 Stat0 == [same |-> 0,     \* earlier replies of the current association handed to the waiting client ...
           before |-> 0,   \* ... of these: while the genuine reply was on its way, which the client then got
           dup |-> 0,      \* ... of these: replies the client had received before (else: replies that had been lost)
@@ -40,7 +46,15 @@ Stat0 == [same |-> 0,     \* earlier replies of the current association handed t
           span1 |-> 0,    \* requests served one rotation after the association's key exchange
           span2 |-> 0,    \* ... two or more rotations after it, with a served request in between
           had1 |-> 0,
-          oldprobe |-> 0] \* foreign requests answered whose cookie is sealed under an older key
+          oldprobe |-> 0, \* foreign requests answered whose cookie is sealed under an older key
+          sx |-> 0,         \* requests sent by the SCION client
+          sxstore |-> 0,    \* ... exchanges of the SCION client that succeeded
+          sxrekey |-> 0,    \* key exchanges run by the SCION client's fetcher
+          scmp |-> 0,       \* SCMP messages handed to the waiting SCION client ...
+          scmpbefore |-> 0, \* ... of these: while the genuine reply was on its way, which the client then got
+          scmpinstead |-> 0,\* ... of these: when nothing genuine was on its way (request or reply lost, no reply)
+          scmpmixed |-> 0,  \* ... of these: in an exchange in which an earlier reply was handed over as well
+          scmpsecond |-> 0] \* ... of these: deliveries that ended the call (retry already spent)
 
 TickChoices ==
   LET avail == {d \in Ticks : now + d <= Horizon}
@@ -70,6 +84,18 @@ InjChoices(k) ==
   IF NOld = 0 THEN {<<0, 0>>}
   ELSE IF Exhaustive THEN ExInj
   ELSE {IF Pick(1 .. 100) <= StalePct THEN InjTable[Pick(1 .. Len(InjTable))] ELSE <<0, 0>>}
+\* SCMP messages for the waiting SCION client: <<count, before the earlier replies?, type>>;
+\* pre is the number of earlier replies already planned for this exchange
+ScmpSeq == <<"unreach", "echorep", "param">>
+ScmpChoices(k, npre) ==
+  IF tr # "scion" \/ ScmpTypes = {} THEN {<<0, FALSE, "none">>}
+  ELSE IF Exhaustive
+       THEN {<<0, FALSE, "none">>} \cup
+            {<<c, f, ScmpSeq[(k % 3) + 1]>> : c \in {x \in ExScmp : x > 0 /\ x + npre <= 2},
+                                             f \in (IF npre > 0 THEN BOOLEAN ELSE {TRUE})}
+       ELSE {IF npre < 2 /\ Pick(1 .. 100) <= ScmpPct
+             THEN <<Pick(1 .. (2 - npre)), npre = 0 \/ Pick(BOOLEAN), Pick(ScmpTypes)>>
+             ELSE <<0, FALSE, "none">>}
 SrcChoices(k) == IF NOld = 0 THEN {0} ELSE IF Exhaustive THEN {1} ELSE {Pick(1 .. NOld)}   \* (exhaustive: the newest one)
 \* the src-th newest reply to an earlier request
 NStale == Cardinality({i \in DOMAIN old : IsStale(i)})
@@ -79,14 +105,17 @@ SrcIdxIdle == Len(old) + 1 - plan.src - (IF Len(old) > 0 /\ old[Len(old)].ex = n
 Finished == nex = MaxEx /\ phase = "idle" /\ plan.post = 0
 
 Op(op, d, n, u, kb, pl) ==
-  [op |-> op, d |-> d, n |-> n, u |-> u, kb |-> kb, drop |-> pl.drop, pre |-> pl.pre, post |-> pl.post, src |-> pl.src]
+  [op |-> op, d |-> d, n |-> n, u |-> u, kb |-> kb, drop |-> pl.drop, pre |-> pl.pre, post |-> pl.post, src |-> pl.src,
+   scmp |-> pl.scmp, sfirst |-> pl.sfirst, styp |-> pl.styp]
 
 GIdle ==
   \E t \in TickChoices :
     IF t > 0
     THEN Tick(t) /\ hist' = Append(hist, Op("tick", t, 0, 0, 0, NoPlan)) /\ UNCHANGED <<plan, stat, kex>>
     ELSE IF pool = << >>
-    THEN Rekey /\ kex' = prov'.cur /\ stat' = [stat EXCEPT !.had1 = 0] /\ UNCHANGED <<hist, plan>>
+    THEN /\ Rekey /\ kex' = prov'.cur
+         /\ stat' = [stat EXCEPT !.had1 = 0, !.sxrekey = @ + (IF tr = "scion" THEN 1 ELSE 0)]
+         /\ UNCHANGED <<hist, plan>>
     ELSE \E pr \in ProbeChoices(nex) :
       IF pr > 0
       THEN \E u \in UidChoices(nex), kb \in KbChoices(nex) :
@@ -95,10 +124,13 @@ GIdle ==
              /\ stat' = [stat EXCEPT !.oldprobe = @ + (IF rep'.k = "probe" /\ rep'.ck # prov'.cur THEN 1 ELSE 0)]
              /\ UNCHANGED <<plan, kex>>
       ELSE \E dr \in DropChoices(Len(pool)), inj \in InjChoices(nex), sr \in SrcChoices(nex) :
+           \E sc \in ScmpChoices(nex, inj[1]) :
              /\ SendRequest
-             /\ plan' = [drop |-> dr, pre |-> inj[1], post |-> inj[2], src |-> IF inj = <<0, 0>> THEN 0 ELSE sr]
+             /\ plan' = [drop |-> dr, pre |-> inj[1], post |-> inj[2], src |-> IF inj = <<0, 0>> THEN 0 ELSE sr,
+                         scmp |-> sc[1], sfirst |-> sc[2], styp |-> sc[3]]
              /\ hist' = Append(hist, Op("x", 0, 0, 0, 0, plan'))
-             /\ UNCHANGED <<stat, kex>>
+             /\ stat' = [stat EXCEPT !.sx = @ + (IF tr = "scion" /\ obs' = "send" THEN 1 ELSE 0)]
+             /\ UNCHANGED kex
 
 GServe ==
   /\ ServerHandle
@@ -116,10 +148,21 @@ GReplay ==
          sm == o.sess = sess
          rc == Len(o.cookies) > 0 /\ (o.cookies[1].id \in used \/ o.cookies[1].id \in Ids(pool))
      IN stat' = [stat EXCEPT !.same = @ + (IF sm THEN 1 ELSE 0),
-                             !.before = @ + (IF sm /\ tries = 0 /\ phase = "resp" /\ plan.drop = "none" /\ plan.pre = 1 THEN 1 ELSE 0),
+                             !.before = @ + (IF sm /\ tries = 0 /\ phase = "resp" /\ plan.drop = "none" /\ plan.pre = 1 /\ plan.scmp = 0 THEN 1 ELSE 0),
                              !.dup = @ + (IF sm /\ rc THEN 1 ELSE 0),
                              !.other = @ + (IF sm THEN 0 ELSE 1),
                              !.second = @ + (IF obs' = "fail" THEN 1 ELSE 0)]
+
+\* the next extra datagram of the current exchange is an SCMP message
+ScmpNext == plan.scmp > 0 /\ (plan.sfirst \/ plan.pre = 0)
+GScmp ==
+  /\ Scmp(plan.styp)
+  /\ plan' = [plan EXCEPT !.scmp = @ - 1]
+  /\ stat' = [stat EXCEPT !.scmp = @ + 1,
+                          !.scmpbefore = @ + (IF tries = 0 /\ phase = "resp" /\ plan.drop = "none" /\ plan.scmp = 1 /\ plan.pre = 0 THEN 1 ELSE 0),
+                          !.scmpinstead = @ + (IF phase = "wait" THEN 1 ELSE 0),
+                          !.scmpmixed = @ + (IF plan.src > 0 THEN 1 ELSE 0),
+                          !.scmpsecond = @ + (IF obs' = "fail" THEN 1 ELSE 0)]
 
 GNext ==
   /\ ~Finished
@@ -129,9 +172,13 @@ GNext ==
         /\ Stray(SrcIdxIdle) /\ plan' = [plan EXCEPT !.post = 0]
         /\ stat' = [stat EXCEPT !.stray = @ + 1] /\ UNCHANGED <<hist, kex>>
      \/ phase = "req"  /\ (IF plan.drop = "req" THEN LoseRequest /\ UNCHANGED stat ELSE GServe) /\ UNCHANGED <<hist, plan, kex>>
-     \/ phase \in {"resp", "wait"} /\ plan.pre > 0 /\ GReplay /\ UNCHANGED <<hist, kex>>
-     \/ phase = "resp" /\ plan.pre = 0 /\ (IF plan.drop = "resp" THEN LoseResponse ELSE ClientReceive) /\ UNCHANGED <<hist, plan, stat, kex>>
-     \/ phase = "wait" /\ plan.pre = 0 /\ Timeout /\ UNCHANGED <<hist, plan, stat, kex>>
+     \/ phase \in {"resp", "wait"} /\ ScmpNext /\ GScmp /\ UNCHANGED <<hist, kex>>
+     \/ phase \in {"resp", "wait"} /\ ~ScmpNext /\ plan.pre > 0 /\ GReplay /\ UNCHANGED <<hist, kex>>
+     \/ /\ phase = "resp" /\ plan.pre = 0 /\ plan.scmp = 0
+        /\ (IF plan.drop = "resp" THEN LoseResponse ELSE ClientReceive)
+        /\ stat' = [stat EXCEPT !.sxstore = @ + (IF tr = "scion" /\ obs' = "store" THEN 1 ELSE 0)]
+        /\ UNCHANGED <<hist, plan, kex>>
+     \/ phase = "wait" /\ plan.pre = 0 /\ plan.scmp = 0 /\ Timeout /\ UNCHANGED <<hist, plan, stat, kex>>
 
 HInit == Init /\ hist = << >> /\ plan = NoPlan /\ bias \in Biases /\ stat = Stat0 /\ kex = 0
 HSpec == HInit /\ [][GNext]_gvars
@@ -139,7 +186,7 @@ HSpec == HInit /\ [][GNext]_gvars
 \* every generated step is a step of the specification
 StepOfSpec == [][Next]_vars
 
-Emit == Finished => PrintT(<<"CASE", ToJson([bias |-> bias, ops |-> hist, stat |-> stat])>>)
+Emit == Finished => PrintT(<<"CASE", ToJson([bias |-> bias, tr |-> tr, ops |-> hist, stat |-> stat])>>)
 BiasAll  == 0 .. 5
 BiasOne  == {0}
 BiasLow  == {0, 1}
@@ -154,5 +201,13 @@ GUids    == {32, 36, 64, 160, 200, 300, 320}
 GUidsX   == {200}
 NoProbes == {}
 InjNone  == {<<0, 0>>}
+TrIP     == {"ip"}
+TrSCION  == {"scion"}
+TrBoth   == {"ip", "scion"}
+ScmpAll  == {"unreach", "echorep", "param"}
+ScmpNone == {}
+ScmpX    == {0, 1}
+ScmpX2   == {0, 1, 2}
+ScmpX0   == {0}
 InjX     == {<<0, 0>>, <<1, 0>>}
 =============================================================================
